@@ -149,6 +149,11 @@ class Facts:
             if is_len_of(x) is not None or (x[0] == "call" and x[1].split("::")[-1] in ("count", "len")):
                 self.add(x, ZERO, 0)
                 self.add(ZERO, x, -ISIZE_MAX)
+            if x[0] == "call" and x[1].split("::")[-1] in ("from", "into") and "From<bool>" in str(x[2]):
+                # integer from bool: 0 or 1
+                self.atoms.add(x)
+                self.add(x, ZERO, 0)
+                self.add(ZERO, x, -1)
             c = position_payload(x)
             if c is not None:
                 self.add(x, ZERO, 0)
